@@ -679,7 +679,7 @@ impl CaseDriver for Dag {
     fn describe(&self, t: Tier) -> Describe {
         Describe {
             rule: format!(
-                "placed libraries of n = {}..={} cells: every DAG (cell i may instantiate any subset of the cells j < i) x every listing order of the cells (n!) x reflection base (instance k of a cell gets combination (base+k) mod 4, so all four occur) x content profile (0/1/2 assignments and cuts per layout, witness quadruples with four different numbers); value deviations (transport: message as exported / through prost encode+decode, library / cell names incl. empty, non-ASCII and names with dots (one of them ending in another cell's name), slashes and colons, outline 1-3 steps / repeated step / zero, metals 0..3, views layout / layout+abstract (the abstract optionally with another metal count and outline) / abstract-only leaf / leaf without any view, a layout view named differently from its cell, per-cell assignment and cut counts, a cut / an assignment stated twice (adjacent or apart), a cut at the very crossing of an assignment, an intersection assigned once from each of its two tracks, instance names reused from cell to cell, crossings between layers three apart / on one layer / with the crossing track on layer 0, net names, per-instance reflection, location incl. (0,0) and negative, duplicated instance) in at most {} place(s). State = one library description + transport; non-trivial = at least one instance, assignment or cut.",
+                "placed libraries of n = {}..={} cells: every DAG (cell i may instantiate any subset of the cells j < i) x every listing order of the cells (n!) x reflection base (instance k of a cell gets combination (base+k) mod 4, so all four occur) x content profile (0/1/2 assignments and cuts per layout, witness quadruples with four different numbers); value deviations (transport: message as exported / through prost encode+decode, library / cell names incl. empty, non-ASCII and names with dots (one of them ending in another cell's name), slashes and colons, outline 1-3 steps / repeated step / zero, metals 0..3, views layout / layout+abstract (the abstract optionally with another metal count and outline) / abstract-only leaf / leaf without any view, a layout view named differently from its cell, per-cell assignment and cut counts, a cut / an assignment stated twice (adjacent or apart), a cut at the very crossing of an assignment, an intersection assigned once from each of its two tracks, instance names reused from cell to cell, crossings between layers three apart / on one layer / with the crossing track on layer 0 / with track 0 of layer 0 as either reference, two cells whose names differ only in letter case, net names, per-instance reflection, location incl. (0,0) and negative, duplicated instance) in at most {} place(s). State = one library description + transport; non-trivial = at least one instance, assignment or cut.",
                 self.nmin,
                 self.nmax,
                 self.bound(t)
@@ -753,13 +753,16 @@ impl CaseDriver for Dag {
             let mut cuts: Vec<CrossD> = (0..ncut).map(|a| CrossD(a, 31 + i, 1 + a, 47 + i + a)).collect();
             // crossings whose two tracks are not on adjacent layers (three apart, the same layer, the crossing track on
             // layer 0 below a far track layer): the schema carries both layers explicitly
-            match c.cost(4, "crossing-layers") {
+            // (4, 5: the track / the crossing track is track 0 of layer 0 - all numbers of the reference are zero)
+            match c.cost(6, "crossing-layers") {
                 0 => {}
                 k => {
                     let far = |x: &CrossD| match k {
                         1 => CrossD(x.0, x.1, x.0 + 3, x.3),
                         2 => CrossD(x.0, x.1, x.0, x.3),
-                        _ => CrossD(x.0 + 4, x.1, 0, x.3),
+                        3 => CrossD(x.0 + 4, x.1, 0, x.3),
+                        4 => CrossD(0, 0, x.2.max(1), x.3),
+                        _ => CrossD(x.0.max(1), x.1, 0, 0),
                     };
                     if let Some(x) = cuts.first_mut() {
                         *x = far(x);
@@ -803,6 +806,13 @@ impl CaseDriver for Dag {
                 _ => None,
             };
             cells.push(CellD { name: cname, layout, abs });
+        }
+        // two cells whose names differ only in letter case (the second cell takes the first one's name in upper case)
+        if cells.len() >= 2 && c.cost(2, "cell-names-differ-only-in-case") == 1 {
+            let up = cells[0].name.to_uppercase();
+            if up != cells[0].name {
+                cells[1].name = up;
+            }
         }
         if nedges > 0 && c.cost(2, "instance-names-reused-across-cells") == 1 {
             for cell in cells.iter_mut() {
